@@ -50,3 +50,18 @@ def field_of(t):
     if t[0] == "proj" and t[2][0] == "f":
         return (t[1], t[2][1])
     return None
+
+
+def contains_outside(t, sub, barrier):
+    """does `sub` occur in t other than inside a call to `barrier`"""
+    st = [t]
+    while st:
+        x = st.pop()
+        if not isinstance(x, tuple):
+            continue
+        if x == sub:
+            return True
+        if x and x[0] == "call" and isinstance(x[1], str) and (x[1] == barrier or x[1].endswith("::" + barrier)):
+            continue
+        st.extend(y for y in x if isinstance(y, tuple))
+    return False
